@@ -245,6 +245,8 @@ def run_trace(cfg, trace, kinds, init_env=None, observe=None, timeout=10.0):
                 return upd_ok, TaskStatus.DONE, 'extra'
             if kind == 'bogus-status':
                 return upd_ok, 'bogus'
+            if kind == 'update-empty-non-mapping':
+                return [], TaskStatus.DONE
             return 42, TaskStatus.DONE
 
     warm = [False]
